@@ -235,6 +235,18 @@ def rule_TH(ctx, tier):
             want = "filtered_block_connected" if name == "update" else "block_disconnected"
             if callers and all(want in x for x in callers):
                 rr.ok("%s is driven only by %s (%s)" % (name, want, DRIVERS[name]))
+                # ... exactly once per event, on every path: a connect / disconnect the index does not see leaves every later
+                # answer about stale blocks (and, for a skipped disconnect, every later height) wrong
+                mc = ctx.pf.must_call()
+                for cb_id in sorted({x for x, _ in external.get(m, [])}):
+                    cb_ = P.bodies[cb_id]
+                    n_sites = len([1 for x, _ in external[m] if x == cb_id])
+                    in_loop = any(bb2 in cb_.reachable(s2) for x, bb2 in external[m] if x == cb_id for s2 in cb_.succ(bb2))
+                    if m in mc.get(cb_id, set()) and n_sites == 1 and not in_loop:
+                        rr.ok("%s calls %s exactly once on every path" % (shortfn(cb_id), name))
+                    else:
+                        rr.fail("driver-not-once:%s:%s" % (name, shortfn(cb_id)), "`%s` does not call `TxIndex::%s` exactly once on every path (sites %d, on every path: %s, in a loop: %s): a block event the index does not see leaves entries of disconnected blocks visible / shifts every later height" % (
+                            shortfn(cb_id), name, n_sites, m in mc.get(cb_id, set()), in_loop), where=cb_.span)
             else:
                 rr.fail("driver:%s" % name, "`%s` is called from %s: the chain meaning of the call (%s) is only known for the Listen callbacks" % (name, callers, DRIVERS[name]), where=P.bodies[m].span)
         elif m in external:
